@@ -28,7 +28,10 @@ LEVEL = 'exploration'
 RULE = ('image case = one generated header (5 zenithal projections, CRPIX inside or up to 1.5 image sizes outside, CDELT '
         'of both signs, shapes 1x1..200x150, float32/float64, a few pre-existing NaN/inf pixels; plus images whose '
         'pixel grid partly has no sky position (all-sky AIT/MOL, SIN/ZEA/ARC wider than the map, CRPIX off-image) and '
-        'images with more than 2**22 (thorough: 2**24) pixels per plane through mask_file / the command line) and one region (circle, '
+        'images with more than 2**22 (thorough: 2**24) pixels per plane through mask_file / the command line; '
+        'mask_plane is also driven with Fortran-ordered arrays, transposed views, cut-outs of larger C / F arrays, '
+        'stepped and negative strides, a plane of a cube with the plane axis in the middle, and non-native byte order '
+        '(pixels of the parent array outside the view must not change)) and one region (circle, '
         'several circles, convex polygon, empty, whole sky) whose HEALPix cells are 0.2..5 image pixels wide, masked '
         'with negate False and True through mask_plane, mask_file (2-D, 3-D, 4-D with degenerate axes) or the MIMAS '
         'command line; files are float32/float64 or scaled integers (BITPIX 8/16/32 with BSCALE/BZERO, with and '
@@ -61,7 +64,8 @@ MIN_COUNTERS = {'pixels_judged': 200000, 'pixels_expected_blank': 20000, 'pixels
                 'images_with_boundary': 40, 'cube_planes_compared': 10, 'rows_judged': 20000,
                 'rows_expected_removed': 2000, 'rows_expected_kept': 2000, 'rows_nonfinite': 200,
                 'empty_tables': 4, 'catalog_files': 10, 'integer_stored_files': 20, 'images_with_off_sky_pixels': 40, 'pixels_off_sky': 20000,
-                'complementarity_off_sky_pixels': 20000, 'big_plane_images': 3, 'cli_runs': 2, 'complementarity_pixels': 200000}
+                'complementarity_off_sky_pixels': 20000, 'big_plane_images': 3, 'noncontiguous_planes': 100, 'byteswapped_planes': 20,
+                'parent_pixels_outside_view_compared': 10000, 'cli_runs': 2, 'complementarity_pixels': 200000}
 
 EPS = 1e-7          # degrees, undetermined band around a cell edge (DESIGN section 1 rule 2, section 5 C10)
 
@@ -270,6 +274,13 @@ def cases(seed, tier):
                 'radii_px': [400.0, 300.0, 200.0]}
         out.append({'kind': 'file', 'geom': geom, 'region': spec, 'dtype': dt, 'dims': dims, 'cli': cli,
                     'seed': ['t', 'big', i]})
+    # memory layouts of the array handed to mask_plane
+    for i, layout in enumerate(LAYOUTS):
+        for dt in ('f4', 'f8'):
+            g = dict(base, proj=PROJECTIONS[i % 5], shape=(20 + i, 24 - i % 3))
+            out.append({'kind': 'plane', 'geom': g, 'layout': layout, 'dtype': dt,
+                        'region': {'kind': 'circle', 'centre_index': (9.0, 12.0), 'radius_px': 6.0},
+                        'seed': ['t', 'layout', layout, dt]})
     # cubes whose planes are one pixel high / wide (a celestial axis of length 1 must survive)
     thin = dict(base, depth=12, ratio=resol_deg(12) / 0.02)
     for i, (shape, dims) in enumerate((((1, 7), '3d'), ((1, 7), '4d_11'), ((6, 1), '3d'), ((6, 1), '4d_1n'),
@@ -300,6 +311,11 @@ def cases(seed, tier):
         g = _image_geometry(rng, shape=shp)
         out.append({'kind': 'file', 'geom': g, 'region': _region_spec(rng, g), 'dtype': str(rng.choice(['f4', 'f8'])),
                     'dims': dims, 'cli': bool(rng.random() < 0.15), 'seed': [seed, 'file', i]})
+    rlay = rng_for(seed, 'c10-layouts', tier)
+    for i in range(200 if tier == 'quick' else 3000):
+        g = _image_geometry(rlay)
+        out.append({'kind': 'plane', 'geom': g, 'region': _region_spec(rlay, g), 'dtype': str(rlay.choice(['f4', 'f8'])),
+                    'layout': str(rlay.choice(LAYOUTS[1:])), 'seed': [seed, 'layout', i]})
     rwide = rng_for(seed, 'c10-wide', tier)
     for i in range(70 if tier == 'quick' else 1000):
         out.append(_wide_case(rwide, 'plane' if i % 3 else 'file', [seed, 'wide', i]))
@@ -716,6 +732,55 @@ def _prepare_image(o, case, rng):
     return reg, desc, orc
 
 
+LAYOUTS = ('C', 'F', 'transposed_view', 'slice', 'slice_of_F', 'stepped', 'negative_strides', 'byteswapped',
+           'byteswapped_slice', 'row_of_cube')
+
+
+def _with_layout(data, layout, rng):
+    """(work, parent, view_mask): `work` has the values of `data` in the requested memory layout; for views `parent`
+    is the array owning the memory and `view_mask` marks the parent elements that belong to the view"""
+    ny, nx = data.shape
+    if layout == 'C':
+        return data.copy(), None, None
+    if layout == 'F':
+        return np.asfortranarray(data), None, None
+    if layout == 'transposed_view':
+        return np.ascontiguousarray(data.T).T, None, None
+    if layout == 'byteswapped':
+        return data.astype(data.dtype.newbyteorder('S')), None, None
+    if layout in ('slice', 'slice_of_F', 'byteswapped_slice'):
+        a, b, c, d = (int(x) for x in rng.integers(0, 6, 4))
+        parent = rng.normal(0, 1, (ny + a + b, nx + c + d)).astype(data.dtype)
+        if layout == 'slice_of_F':
+            parent = np.asfortranarray(parent)
+        if layout == 'byteswapped_slice':
+            parent = parent.astype(data.dtype.newbyteorder('S'))
+        sl = (slice(a, a + ny), slice(c, c + nx))
+    elif layout == 'stepped':
+        si, sj = int(rng.integers(1, 4)), int(rng.integers(2, 4))
+        parent = rng.normal(0, 1, (ny * si + 1, nx * sj + 2)).astype(data.dtype)
+        sl = (slice(1, 1 + ny * si, si), slice(0, nx * sj, sj))
+    elif layout == 'negative_strides':
+        parent = rng.normal(0, 1, (ny + 1, nx)).astype(data.dtype)
+        sl = (slice(-2, None, -1), slice(None, None, -1))      # rows ny-1 .. 0 of the ny+1, columns reversed
+    elif layout == 'row_of_cube':
+        parent = rng.normal(0, 1, (ny, 3, nx)).astype(data.dtype)
+        sl = (slice(None), 1, slice(None))
+    else:
+        raise ValueError(layout)
+    work = parent[sl]
+    if work.shape != data.shape:
+        raise RuntimeError('harness: layout %s gave shape %s for %s' % (layout, work.shape, data.shape))
+    work[...] = data
+    vm = np.zeros(parent.shape, dtype=bool)
+    vm[sl] = True
+    return work, parent, vm
+
+
+def _native(a, dtype):
+    return np.ascontiguousarray(np.asarray(a).astype(dtype))
+
+
 def _run_plane(o, case, rng):
     from AegeanTools import MIMAS
     prep = _prepare_image(o, case, rng)
@@ -726,18 +791,36 @@ def _run_plane(o, case, rng):
     data = _make_data(rng, geom['shape'], case['dtype'])
     o.see('dtype', case['dtype'])
     blank = {}
+    layout = case.get('layout', 'C')
+    o.see('memory_layout', layout)
     for negate in (False, True):
-        work = data.copy()
-        ok, ret = _call(o, MIMAS.mask_plane, 'mask_plane(negate=%s) shape=%s' % (negate, list(geom['shape'])),
+        work, parent, vmask = _with_layout(data, layout, rng_for(*case['seed'], 'layout', negate))
+        if not np.array_equal(_bits(_native(work, data.dtype)), _bits(data)):
+            raise RuntimeError('harness: layout %s does not hold the image' % layout)
+        o.see('array_flags', '%s%s%s' % ('C' if work.flags.c_contiguous else '', 'F' if work.flags.f_contiguous else '',
+                                         '' if work.dtype.isnative else ' swapped'))
+        if not work.flags.c_contiguous:
+            o.count('noncontiguous_planes')
+        if not work.dtype.isnative:
+            o.count('byteswapped_planes')
+        outside_before = None if parent is None else _native(parent, data.dtype)[~vmask].copy()
+        ok, ret = _call(o, MIMAS.mask_plane, 'mask_plane(negate=%s) shape=%s layout=%s' % (negate, list(geom['shape']),
+                                                                                           layout),
                         work, orc.w, reg, negate)
         if not ok:
             continue
         if not (isinstance(ret, np.ndarray) and ret.shape == data.shape):
             o.violate('result_shape', {'returned': str(type(ret)), 'shape': list(getattr(ret, 'shape', []))})
             continue
-        if ret is not work and not np.array_equal(_bits(ret), _bits(work)):
-            o.violate('returned_array_differs_from_inplace', {'negate': negate})
-        blank[negate] = _judge_plane(o, orc, data, ret, negate, 'mask_plane', desc)
+        # the documented effect is on the array that was passed in ("the original array, but masked")
+        after = _native(work, data.dtype)
+        if ret is not work and not np.array_equal(_bits(_native(ret, data.dtype)), _bits(after)):
+            o.violate('returned_array_differs_from_inplace', {'negate': negate, 'layout': layout})
+        if parent is not None:
+            o.count('parent_pixels_outside_view_compared', int((~vmask).sum()))
+            if not np.array_equal(_bits(_native(parent, data.dtype)[~vmask].copy()), _bits(outside_before)):
+                o.violate('pixels_outside_the_view_changed', {'negate': negate, 'layout': layout})
+        blank[negate] = _judge_plane(o, orc, data, after, negate, 'mask_plane[%s]' % layout, desc)
     if len(blank) == 2:
         _complementary(o, blank[False], blank[True], ~np.isnan(data), 'mask_plane', orc.offsky)
     if orc.stable.any() and orc.inside[orc.stable].any() and (~orc.inside[orc.stable]).any():
